@@ -14,6 +14,7 @@
 import GherkinVerif.Lemmas.QueueLoop
 import GherkinVerif.Gen.ParserTable
 import GherkinVerif.Gen.Dialects
+import GherkinVerif.KDecide
 namespace GV
 
 /-! facts about the regenerated tables -/
@@ -21,13 +22,13 @@ namespace GV
 /-- all look-aheads step over the same kinds (`Empty`, `Comment`, `TagLine`) and wait for title
     kinds; tag states are closed under stepped-over lines; every guarded test is a `TagLine` test
     into a tag state and is followed by another `TagLine` test into a tag state -/
-theorem C18_fact_queue : Spec.queueFacts Gen.parserTable = true := by decide +kernel
+theorem C18_fact_queue : Spec.queueFacts Gen.parserTable = true := by kdecide
 
 /-- no keyword of any dialect starts like a comment, tag, table, doc-string or blank line -/
-theorem C18_fact_keywords : Spec.queueDialectFacts Gen.dialects = true := by decide +kernel
+theorem C18_fact_keywords : Spec.queueDialectFacts Gen.dialects = true := by kdecide
 
 /-- every test hands its token to the builder exactly once -/
-theorem C18_fact_builds : Spec.oneBuildLast Gen.parserTable = true := by decide +kernel
+theorem C18_fact_builds : Spec.oneBuildLast Gen.parserTable = true := by kdecide
 
 /-! the statements, for any table and dialect table passing the checks -/
 
@@ -91,17 +92,17 @@ def C18_demoSrc : Str :=
 
 example : (MState.init Gen.dialects (lit "en")).map
       (fun μ => (parseWith Gen.dialects Gen.parserTable false μ 0 C18_demoSrc).2.reads) =
-    some [1, 2, 3, 4, 5, 6, 7, 8, 9, 10, 11, 12, 13, 14, 15, 16, 17] := by decide +kernel
+    some [1, 2, 3, 4, 5, 6, 7, 8, 9, 10, 11, 12, 13, 14, 15, 16, 17] := by kdecide
 
 example : (MState.init Gen.dialects (lit "en")).map
       (fun μ => (parseWith Gen.dialects Gen.parserTable false μ 0 C18_demoSrc).2.builds.map (·.lineNo)) =
-    some [1, 2, 3, 4, 5, 6, 7, 8, 9, 10, 11, 12, 13, 14, 15, 16, 17] := by decide +kernel
+    some [1, 2, 3, 4, 5, 6, 7, 8, 9, 10, 11, 12, 13, 14, 15, 16, 17] := by kdecide
 
 /-- a rejected document (a tag with whitespace ends the first look-ahead, `foo` is unexpected):
     the lines are still read in order -/
 example : (MState.init Gen.dialects (lit "en")).map
       (fun μ => (parseWith Gen.dialects Gen.parserTable false μ 0
         (lit "Feature: f\nScenario: s\nGiven x\n@a\n\n@b c\nExamples:\nfoo\n")).2.reads) =
-    some [1, 2, 3, 4, 5, 6, 7, 8, 9] := by decide +kernel
+    some [1, 2, 3, 4, 5, 6, 7, 8, 9] := by kdecide
 
 end GV
